@@ -188,6 +188,39 @@ class Base:
 class G(Base):
     d = 7
 ''', sources={"a": "int", "b": "int"}, derived={"d": (["a"], None, "attr"), "p": (["a"], lambda s: s["a"] * 2, "cached")}, attr_default=7),
+    # cached properties declared by an UNDECORATED subclass of a spec class (plain subclasses are supported: defaults, __post_init__)
+    "plain_subclass_properties": dict(src='''
+@spec_class
+class Base:
+    a: int = 1
+    b: int = 10
+    @spec_property(cache=True, invalidated_by=["a"])
+    def p(self):
+        hit("p"); return self.a * 2
+
+class G(Base):
+    @spec_property(cache=True, invalidated_by=["a"])
+    def q(self):
+        hit("q"); return self.a + 100
+    @spec_property(cache=True, invalidated_by="*")
+    def w(self):
+        hit("w"); return self.a + self.b
+''', sources={"a": "int", "b": "int"}, derived={"p": (["a"], lambda s: s["a"] * 2, "cached"), "q": (["a"], lambda s: s["a"] + 100, "cached"),
+                                                    "w": (["a", "b", "p", "q"], lambda s: s["a"] + s["b"], "cached")}),  # '*': every other name
+    # a spec subclass serves an inherited attribute (which had dependencies of its own) through a cached property with OTHER dependencies
+    "subclass_property_replaces_attr": dict(src='''
+@spec_class
+class Base:
+    a: int = 1
+    b: int = 10
+    q: int = Attr(default=0, invalidated_by=["b"])
+
+@spec_class
+class G(Base):
+    @spec_property(cache=True, invalidated_by=["a"])
+    def q(self):
+        hit("q"); return self.a * 2
+''', sources={"a": "int", "b": "int"}, derived={"q": (["a"], lambda s: s["a"] * 2, "cached")}),
     "failing_factory": dict(src='''
 FAIL = {"on": False}
 def fac():
